@@ -159,6 +159,9 @@ class ZLog:
     def __init__(self, inner, log):
         self.inner, self.log = inner, log
 
+    def __getattr__(self, name):
+        return getattr(self.inner, name)        # unused_data, eof, ...: everything else is the real object's
+
     def decompress(self, data):
         try:
             out = self.inner.decompress(data)
